@@ -2,7 +2,6 @@ package admin
 
 import (
 	"fmt"
-	"sort"
 
 	sdk "github.com/cosmos/cosmos-sdk/types"
 
@@ -340,20 +339,21 @@ func WalkT(lg *sim.Log, graphs []*Graph) int {
 	return edges
 }
 
-// DriveT: seeded behaviours over random configurations (supplies, recipients, an asset listed by two apps, two
-// governance flags in one app, external supply) with all six entry points interleaved.
+// DriveT: seeded behaviours over random valid configurations (supplies, recipients, order of the list, a third app with
+// a token that also has external supply) with all six entry points interleaved.
 func DriveT(lg *sim.Log, seed int64, runs, steps int) {
 	rng := sim.NewRng(seed*7919 + 11)
 	for n := 0; n < runs; n++ {
 		rcs := []string{"r1", "r2", "u1"}
 		c := TmCfg{Gen: map[string][]GenTok{}, Ext: map[string]int64{"X": 0, "Y": 0, "Z": 0, "W": int64(rng.Intn(3)) * 15}}
-		c.Gen["a1"] = []GenTok{{Asset: "X", Sup: int64(20 + rng.Intn(100)), Gov: true, Rc: rng.PickS(rcs)}, {Asset: "Y", Sup: int64(1 + rng.Intn(50)), Gov: rng.Intn(6) == 0, Rc: rng.PickS(rcs)}}
+		// configurations the asset module accepts (AddAssetInAppRecords): an asset under one app only, one governance token per app
+		c.Gen["a1"] = []GenTok{{Asset: "X", Sup: int64(20 + rng.Intn(100)), Gov: true, Rc: rng.PickS(rcs)}, {Asset: "Y", Sup: int64(1 + rng.Intn(50)), Gov: false, Rc: rng.PickS(rcs)}}
 		c.Gen["a2"] = []GenTok{{Asset: "Z", Sup: int64(20 + rng.Intn(100)), Gov: true, Rc: rng.PickS(rcs)}}
-		if n%3 == 1 { // the same asset configured for two apps: one bank supply, two books
-			c.Gen["a2"] = append(c.Gen["a2"], GenTok{Asset: "Y", Sup: int64(1 + rng.Intn(30)), Gov: false, Rc: rng.PickS(rcs)})
+		if n%3 == 1 { // the governance token is not the first entry of the list
+			c.Gen["a1"][0], c.Gen["a1"][1] = c.Gen["a1"][1], c.Gen["a1"][0]
 		}
 		c.Gen["a3"] = []GenTok{}
-		if rng.Intn(4) == 0 {
+		if n%4 == 2 {
 			c.Gen["a3"] = []GenTok{{Asset: "W", Sup: int64(5 + rng.Intn(20)), Gov: rng.Intn(2) == 0, Rc: rng.PickS(rcs)}}
 		}
 		if c.Ext["W"] > 0 && rng.Intn(2) == 0 {
@@ -415,13 +415,4 @@ func DriveT(lg *sim.Log, seed int64, runs, steps int) {
 			cur, st = r.Step(w, cur, root, st, a, g)
 		}
 	}
-}
-
-func sortedKeys(m map[string]int64) []string {
-	ks := make([]string, 0, len(m))
-	for k := range m {
-		ks = append(ks, k)
-	}
-	sort.Strings(ks)
-	return ks
 }
